@@ -113,6 +113,43 @@ def lexical_pairs(chk, tier):
     chk.extra["lexical_pairs_replayed"] = total
 
 
+def quoted_parameter_pairs(chk):
+    """quoting a parameter that needs no quotes, for the directives that take more than one parameter: each parameter quoted
+    alone and all of them, against the bare spelling (two real runs)"""
+    heads = {
+        "query_format_example": ("GET /zq\n  Query %s %s\n  {\n    \"page\": 1\n  }\n  200 any\n", ["noFormat", "page=1"]),
+        "query_example_format": ("GET /zq\n  Query %s %s\n  {\n    \"page\": 1\n  }\n  200 any\n", ["page=1", "htmlFormEncoded"]),
+        "type_name_notation": ("TYPE %s %s\nGET /zq\n  200 any\n", ["@zt", "any"]),
+        "type_name_regex": ("TYPE %s %s\n  /a+/\nGET /zq\n  200 any\n", ["@zt", "regex"]),
+        "body_type": ("TYPE @zt\n{}\nPOST /zq\n  Request\n    Body %s\n  200 %s\n", ["@zt", "[@zt]"]),
+        "server_and_base": ("SERVER %s\n  BaseUrl %s\nGET /zq\n  200 any\n", ["@zs", "https://z.example/api"]),
+        "tags_list": ("TAG @za\nTAG @zb\nGET /zq\n  Tags %s %s\n  200 any\n", ["@za", "@zb"]),
+        "rpc": ("URL %s\n  Protocol %s\n  Method zm\n    Result\n    {}\n", ["/zrpc", "json-rpc-2.0"]),
+        "method_path_annotated": ("%s %s // note\n  200 any\n", ["GET", "/zq/{id}"]),
+    }
+    cases, meta = [], {}
+    for nm, (tpl, pars) in heads.items():
+        base = "JSIGHT 0.3\n" + tpl % tuple(pars)
+        cases.append(rel.case("qp_%s_b" % nm, base))
+        for mask in range(1, 1 << len(pars)):
+            if nm == "method_path_annotated" and mask & 1:
+                continue               # (the first placeholder there is the keyword)
+            q = ['"%s"' % p if mask >> i & 1 else p for i, p in enumerate(pars)]
+            cid = "qp_%s_%d" % (nm, mask)
+            cases.append(rel.case(cid, "JSIGHT 0.3\n" + tpl % tuple(q)))
+            meta[cid] = ("qp_%s_b" % nm, nm, base, "JSIGHT 0.3\n" + tpl % tuple(q))
+    obs = harness("run", cases)
+    for cid, (bid, nm, base, text) in meta.items():
+        a, b = obs[bid], obs[cid]
+        chk.evaluations += 1
+        chk.traces += 1
+        chk.nontrivial.add(cid)
+        if a["outcome"] == "ok" and rel.result_key(a) != rel.result_key(b):
+            sig = {"rewrite": "quote", "base": a["outcome"], "variant": b["outcome"], "msg": (b.get("err") or {}).get("msg", ""), "detail": nm}
+            chk.violation("rewriting 'quote' changed the result: bare %s, quoted %s | quoted document:\n%s" % (rel.describe(a), rel.describe(b), text),
+                          {"kind": "pair", "rewrite": "quote", "doc": [], "base": base, "variant": text, "signature": sig}, sig)
+
+
 def main(tier):
     chk = Check("C05", tier)
     rnd = random.Random(seed())
@@ -181,6 +218,7 @@ def main(tier):
                 nm, rel.describe(a), rel.describe(b), d or "", text[:1200]),
                 {"kind": "pair", "rewrite": nm, "doc": m["doc"], "base": base, "variant": text,
                  "observed_base": a, "observed_variant": b, "signature": sig}, sig)
+    quoted_parameter_pairs(chk)
     lexical_pairs(chk, tier)
     import fixrel
     fixrel.c05(chk, tier)
